@@ -73,6 +73,7 @@ type Report struct {
 	RuleN    map[string]int
 	funcs    map[string]bool
 	anchored map[string]bool
+	leaf     map[string]bool
 	sites    int
 }
 
@@ -152,6 +153,36 @@ func (c *Ctx) Anchored(fnName string) bool {
 	return false
 }
 
+// AnchorDepth bounds how far below the functions a property's rules touch the callee closure goes.
+var AnchorDepth = 2
+
+// wiringHubs are the functions that construct and connect every service of a runtime: being anchored
+// does not make everything they reach part of a property (their own rows are compared).
+var wiringHubs = map[string]bool{
+	"controller/config.CreateWithConfig":                                   true,
+	"controller/config.Create":                                             true,
+	"(*controller/services.Services).setup":                                true,
+	"(*controller/services.Services).withManager":                          true,
+	"(*controller/services.Services).SetupWithManager":                     true,
+	"(*controller/legacy.HAProxyController).configController":              true,
+	"(*controller/legacy.HAProxyController).startServices":                 true,
+	"(*controller/legacy.HAProxyController).Start":                         true,
+	"(*controller/legacy.HAProxyController).createDefaultConverterOptions": true,
+	"controller/launch.Run":                                                true,
+}
+
+// TouchLeaf counts fn as analysed and anchors it for the Late rules without anchoring what it calls
+// (for functions that wire everything together, like the construction of the configuration).
+func (c *Ctx) TouchLeaf(fn *ssa.Function) {
+	if fn != nil {
+		c.rep.funcs[FuncName(fn)] = true
+		if c.rep.leaf == nil {
+			c.rep.leaf = map[string]bool{}
+		}
+		c.rep.leaf[FuncName(fn)] = true
+	}
+}
+
 // Touch counts fn as analysed.
 func (c *Ctx) Touch(fn *ssa.Function) {
 	if fn != nil {
@@ -186,13 +217,22 @@ func RunProperty(env *Env, p *Property, tier string) *Report {
 				byName[FuncName(f)] = f
 			}
 			cg := env.CallGraph()
-			var stack []*ssa.Function
-			push := func(f *ssa.Function) {
+			maxDepth := AnchorDepth
+			if v := os.Getenv("HAPVERIF_ANCHOR_DEPTH"); v != "" {
+				fmt.Sscanf(v, "%d", &maxDepth)
+			}
+			type item struct {
+				f *ssa.Function
+				d int
+			}
+			var stack []item
+			depthOf := map[string]int{}
+			push := func(f *ssa.Function, d int) {
 				if f == nil {
 					return
 				}
 				n := FuncName(f)
-				if rep.anchored[n] {
+				if old, ok := depthOf[n]; ok && old <= d {
 					return
 				}
 				if f.Pkg == nil && f.Parent() == nil {
@@ -203,29 +243,76 @@ func RunProperty(env *Env, p *Property, tier string) *Report {
 				if !strings.HasPrefix(pkgPathOf(f), Module) {
 					return
 				}
+				depthOf[n] = d
 				rep.anchored[n] = true
-				stack = append(stack, f)
-				if o := f.Origin(); o != nil && !rep.anchored[FuncName(o)] {
-					// an instantiation of a generic function: the tables are keyed by the generic
-					rep.anchored[FuncName(o)] = true
-					stack = append(stack, o)
+				stack = append(stack, item{f, d})
+				// the package initialiser (tables and defaults in package-level variables) of every package
+				// that holds an anchored function
+				if f.Pkg != nil {
+					if ini := f.Pkg.Func("init"); ini != nil && !rep.anchored[FuncName(ini)] {
+						rep.anchored[FuncName(ini)] = true
+						depthOf[FuncName(ini)] = maxDepth // its closures only
+						stack = append(stack, item{ini, maxDepth})
+					}
 				}
-			}
-			for k := range rep.funcs {
-				push(byName[k])
-			}
-			for len(stack) > 0 {
-				f := stack[len(stack)-1]
-				stack = stack[:len(stack)-1]
-				for _, a := range f.AnonFuncs {
-					push(a)
-				}
-				if nd := cg.Nodes[f]; nd != nil {
-					for _, e := range nd.Out {
-						push(e.Callee.Func)
+				if o := f.Origin(); o != nil {
+					if old, ok := depthOf[FuncName(o)]; !ok || old > d {
+						// an instantiation of a generic function: the tables are keyed by the generic
+						rep.anchored[FuncName(o)] = true
+						depthOf[FuncName(o)] = d
+						stack = append(stack, item{o, d})
 					}
 				}
 			}
+			// a rule that touches a generic function touches its instantiations: only those are in the call graph
+			instances := map[*ssa.Function][]*ssa.Function{}
+			for f := range cg.Nodes {
+				if f != nil {
+					if o := f.Origin(); o != nil {
+						instances[o] = append(instances[o], f)
+					}
+				}
+			}
+			for k := range rep.funcs {
+				push(byName[k], 0)
+				for _, inst := range instances[byName[k]] {
+					push(inst, 0)
+				}
+			}
+			for len(stack) > 0 {
+				it := stack[len(stack)-1]
+				stack = stack[:len(stack)-1]
+				f := it.f
+				for _, a := range f.AnonFuncs {
+					push(a, it.d)
+				}
+				if rep.leaf[FuncName(f)] || wiringHubs[FuncName(f)] || it.d >= maxDepth {
+					continue
+				}
+				if nd := cg.Nodes[f]; nd != nil {
+					for _, e := range nd.Out {
+						callee := e.Callee.Func
+						// bound-method closures, thunks and wrappers are transparent
+						for hops := 0; callee != nil && callee.Synthetic != "" && hops < 3; hops++ {
+							next := (*ssa.Function)(nil)
+							if nn := cg.Nodes[callee]; nn != nil && len(nn.Out) == 1 {
+								next = nn.Out[0].Callee.Func
+							}
+							if next == nil {
+								break
+							}
+							callee = next
+						}
+						push(callee, it.d+1)
+					}
+				}
+			}
+		}
+		if i == nEarly && nEarly < len(ordered) && len(rep.anchored) < 25 {
+			// the scope of the generated tables collapsed (call graph not built, rules stopped touching
+			// functions): the table rules would pass vacuously
+			rep.Obls = append(rep.Obls, Obligation{Rule: p.ID + ".anchored-scope", Key: "anchored scope", Verdict: Failure,
+				Detail: fmt.Sprintf("only %d functions are anchored by the rules of this property: the generated tables would compare almost nothing", len(rep.anchored))})
 		}
 		if r.Thorough && tier != "thorough" {
 			continue
